@@ -403,7 +403,7 @@ MANIFEST = {
              "a well-formed event the only outcomes are an estimand, Zero, 'unidentifiable' or the model's fuel bound (the "
              "RuntimeError of line 6, the null-graph error of nx.is_connected, ValueError/NetworkXError of the helpers are "
              "unreachable); an answer reached with some fuel is not changed by more fuel; every leaf of a returned estimand is a "
-             "single-world interventional term (C06 part). Soundness of the returned estimand and of Zero from lines 4-9 has NO "
+             "single-world interventional term (C06 part); Zero returned by line 5 is sound (by C18's cg_prob). Soundness of the returned estimand and of Zero from line 6 has NO "
              "theorem; on the current tree it is false (F10): the check decides it by correspondence with the real code plus "
              "exact evaluation on sampled functional SCMs, locates every wrong answer in the recursion of the real code and lists the "
              "known defect patterns (F10/M1-M5, D1-D2) as open findings; a wrong step that shows none of them is a new violation. Termination of the line-6 recursion is by fuel in the model (never exhausted on any generated "
